@@ -1129,8 +1129,9 @@ func (f *Facts) summaryOf(g *ssa.Function, depth int) *calleeSummary {
 				}
 			} else {
 				// the returned condition itself: true side gets the atom, false side its negation
-				succ = append(succ, append(append([]Atom(nil), ap.Atoms...), f.atomOf(rv, true)))
-				fail = append(fail, append(append([]Atom(nil), ap.Atoms...), f.atomOf(rv, false)))
+				// (expanded in turn: `return slices.ContainsFunc(list, pred)` / `return other(x)`)
+				succ = append(succ, append(append([]Atom(nil), ap.Atoms...), f.expandAtomsDepth([]Atom{f.atomOf(rv, true)}, depth+1)...))
+				fail = append(fail, append(append([]Atom(nil), ap.Atoms...), f.expandAtomsDepth([]Atom{f.atomOf(rv, false)}, depth+1)...))
 			}
 		}
 	}
